@@ -36,7 +36,8 @@ type caseRun struct {
 	recov    bool              // a recovery restart happened after the last removal of a packed blob
 	files    []*fileT
 	feats    map[string]bool
-	dead     bool // a recovery failed (known finding): the meta index is in an undefined state, the oracle stops
+	perWhole map[string]int // zips the packs of a whole ref may have stored (bound, from the shadow plans)
+	dead     bool           // a recovery failed (known finding): the meta index is in an undefined state, the oracle stops
 }
 
 func newCase(r *hk.Run, label string, zipMax int) *caseRun {
@@ -44,7 +45,7 @@ func newCase(r *hk.Run, label string, zipMax int) *caseRun {
 	st := &execState{}
 	c := &caseRun{r: r, st: st, label: label, zipMax: zipMax, tbl: map[string]*lblob{}, ref: map[string][]byte{},
 		wholes: map[string][]byte{}, anyWhole: map[string][]byte{}, shadow: map[string]bool{}, inZip: map[string]bool{},
-		rmPacked: map[string]bool{}, feats: map[string]bool{}}
+		rmPacked: map[string]bool{}, feats: map[string]bool{}, perWhole: map[string]int{}}
 	c.ex = func(w []string) string { return hk.Guard(func() string { return st.exec(w) }) }
 	c.op(fmt.Sprintf("cfg %d", zipMax))
 	return c
@@ -137,6 +138,19 @@ func (c *caseRun) sweep(rnd *hk.Rand) {
 		v, present := c.ref[k]
 		if present {
 			want = showBytes(v)
+		}
+		// which physical copy will answer (mechanism counters): meta row first, small only without one
+		if w := c.st.w; w != nil {
+			_, errMeta := w.kv.KeyValue.Get("b:" + k)
+			_, inSmall := w.small.BlobContents(blob.MustParse(k))
+			switch {
+			case errMeta == nil && inSmall:
+				c.r.Hit("mech:read-packed-and-still-loose")
+			case errMeta == nil:
+				c.r.Hit("mech:read-packed")
+			case inSmall:
+				c.r.Hit("mech:read-loose")
+			}
 		}
 		got := c.op("fetch " + k)
 		if got != want {
@@ -458,6 +472,28 @@ func chunkyFile(rnd *hk.Rand, name string, nChunks int) *fileT {
 	return f
 }
 
+// sharingFile: another file (other bytes, other whole ref) built from some of prev's data chunks plus
+// a new one – blobs that end up inside the zips of two different files.
+func sharingFile(rnd *hk.Rand, prev *fileT, name string) *fileT {
+	var ts treeSpec
+	for _, b := range prev.blobs {
+		if b.kind == "raw" && len(ts.chunks) < 3 {
+			ts.chunks = append(ts.chunks, b.data)
+		}
+	}
+	ts.chunks = append(ts.chunks, rnd.Bytes(10<<10+rnd.Intn(20<<10)))
+	total := 0
+	for total < packThreshold+rnd.Intn(30<<10) {
+		ci := rnd.Intn(len(ts.chunks))
+		ts.layout = append(ts.layout, []int{ci})
+		ts.nested = append(ts.nested, false)
+		total += len(ts.chunks[ci])
+	}
+	f := craftedFile(name, ts, time.Time{})
+	f.shape = fmt.Sprintf("sharing:%dchunks", len(ts.chunks))
+	return f
+}
+
 func randomName(rnd *hk.Rand) string {
 	switch rnd.Intn(5) {
 	case 0:
@@ -490,6 +526,15 @@ func writeSeq(atts []attempt) []string {
 
 // upload sends the blobs of f (in the given order) and returns the shadow plan of the last blob sent.
 func (c *caseRun) upload(rnd *hk.Rand, f *fileT, schemaFirst bool, budget string) (string, []attempt) {
+	// the model sorts a whole ref's zips like sort.Slice does below 12 elements (stable insertion sort);
+	// with more, duplicates of a part index would be ordered by pdqsort: stay inside the modelled range
+	plan, _, _ := shadowPack(mergeTbl(c.tbl, f), f.fileRef, c.zipMax)
+	if n := countStored(plan); c.perWhole[f.whole.String()] > 0 && c.perWhole[f.whole.String()]+n > 12 {
+		c.r.Hit("skip:second-pack-would-exceed-12-zips-per-whole-ref")
+		return "", nil
+	} else {
+		c.perWhole[f.whole.String()] += n
+	}
 	blobs := append([]*lblob(nil), f.blobs...)
 	last := blobs[len(blobs)-1]
 	if schemaFirst {
@@ -564,7 +609,7 @@ func Run(r *hk.Run) {
 	r.Res.Rule = "a case = one blobpacked storage (CreateStorage(\"blobpacked\") over memory small/large + a shared memory meta index, zip size limit default or lowered through the verif hook) and a history: files at/above the packing threshold (cut by schema.WriteFileFromReader, or hand-made file/bytes schema trees with repeated chunks, nested bytes blobs, long names) uploaded chunks-first, shuffled or schema-first; the same bytes under a second name; files sharing chunks; every pack optionally cut after its k-th lower-layer write (k over the whole write sequence, with partially executed loose-blob deletions); restart without recovery / fast / full; removals and re-uploads. After every step every announced blob is fetched, stat-ed, range-fetched and the whole store enumerated and compared with a reference map; OpenWholeRef is compared with the file bytes; every stored zip is opened with archive/zip and checked (size limit, first entry = file slice, manifest offsets). distinct_nontrivial = distinct (family, file shape, #zips class, crash write kind, recovery mode, removal) tuples among cases with at least one pack"
 	nSweep, nHist, nWritten := 3, 14, 2
 	if r.Thorough() {
-		nSweep, nHist, nWritten = 14, 90, 10
+		nSweep, nHist, nWritten = 30, 220, 24
 	}
 	// family A: exhaustive crash points of one light file (single- and multi-zip)
 	for i := 0; i < nSweep; i++ {
@@ -728,12 +773,17 @@ func history(r *hk.Run, rnd *hk.Rand, i int) {
 	for j := 0; j < nf; j++ {
 		var f *fileT
 		switch {
-		case j > 0 && rnd.Chance(35):
+		case j > 0 && rnd.Chance(30):
 			f = renamed(files[rnd.Intn(len(files))], randomName(rnd))
+		case j > 0 && rnd.Chance(35):
+			f = sharingFile(rnd, files[rnd.Intn(len(files))], randomName(rnd))
 		case rnd.Chance(30):
 			f = chunkyFile(rnd, randomName(rnd), 3+rnd.Intn(4))
 		default:
 			f = lightFile(rnd, randomName(rnd), rnd.Bool())
+		}
+		if strings.HasPrefix(f.shape, "sharing:") {
+			r.Hit("files:sharing-chunks-with-another-file")
 		}
 		files = append(files, f)
 	}
